@@ -240,11 +240,12 @@ class Extracted:
         self.node = node
         self.dropped = nz.dropped
         self.unsupported = nz.unsupported
+        self.extra_decorators = []
         for d in self.decorators:
             base = d.split("(")[0]
             if base not in ("property", "staticmethod", "classmethod", "event_handler", "abc.abstractmethod",
-                            "abstractmethod") and not base.endswith(".setter") and base != "lru_cache":
-                self.unsupported.append("decorator %s" % d)
+                            "abstractmethod") and not base.endswith(".setter"):
+                self.extra_decorators.append(d)
 
     def describe(self):
         return {"file": self.relpath, "qualname": self.qualname, "sha256": self.sha256,
